@@ -238,8 +238,11 @@ type fake struct {
 	log       []served
 	manifest  []byte
 	manifests map[string][]byte // par steps: by ns/model/tag
-	regHost   string            // 127.0.0.1:p
-	cdnHost   string            // localhost:p2
+	authOn    bool              // the registry wants a bearer token of the current epoch on every request
+	epoch     int               // tokens issued in an earlier epoch are no longer accepted
+	issued    int
+	regHost   string // 127.0.0.1:p
+	cdnHost   string // localhost:p2
 	cancelK   string
 	cancelN   int
 	cancel    func()
@@ -402,6 +405,12 @@ func (f *fake) respond(w http.ResponseWriter, r *http.Request, key string, sp sp
 		return
 	}
 	f.record(sv)
+	if sp.has("rotate_after") {
+		// every token issued so far stops being accepted once this response has been sent
+		f.mu.Lock()
+		f.epoch++
+		f.mu.Unlock()
+	}
 	if end == "clean" && (declared == int64(len(body)) || r.Method == http.MethodHead) && !sp.has("rawcl") && !sp.has("stall") {
 		for k, v := range hdr {
 			w.Header().Set(k, v)
@@ -450,13 +459,44 @@ func (f *fake) respond(w http.ResponseWriter, r *http.Request, key string, sp sp
 	}
 }
 
+// authGate answers 401 with a bearer challenge unless the request carries a token of the current epoch.
+// Such an answer does not consume an entry of the fault script.
+func (f *fake) authGate(w http.ResponseWriter, r *http.Request, key string) bool {
+	f.mu.Lock()
+	on, epoch := f.authOn, f.epoch
+	f.mu.Unlock()
+	if !on {
+		return false
+	}
+	var e, n int
+	if c, _ := fmt.Sscanf(r.Header.Get("Authorization"), "Bearer t%d.%d", &e, &n); c == 2 && e == epoch {
+		return false
+	}
+	f.respond(w, r, key, spec{}, 401, map[string]string{
+		"Www-Authenticate": `Bearer realm="http://` + f.regHost + `/token",service="svc",scope="repository:ns/m:pull"`,
+		"Content-Type":     "application/json",
+	}, []byte(`{"errors":[{"code":"UNAUTHORIZED","message":"authentication required"}]}`))
+	return true
+}
+
 func (f *fake) registry(w http.ResponseWriter, r *http.Request) {
 	p := r.URL.Path
 	switch {
 	case p == "/token":
 		sp, _ := f.next("token")
-		f.respond(w, r, "token", sp, 200, map[string]string{"Content-Type": "application/json"}, []byte(`{"token":"tok"}`))
+		f.mu.Lock()
+		f.issued++
+		e := f.epoch
+		if sp != nil && sp.has("stale") {
+			e-- // a token that is already superseded when it is issued
+		}
+		tok := fmt.Sprintf(`{"token":"t%d.%d"}`, e, f.issued)
+		f.mu.Unlock()
+		f.respond(w, r, "token", sp, 200, map[string]string{"Content-Type": "application/json"}, []byte(tok))
 	case strings.Contains(p, "/manifests/"):
+		if f.authGate(w, r, "manifest") {
+			return
+		}
 		sp, _ := f.next("manifest")
 		body := f.manifest
 		if f.manifests != nil {
@@ -472,6 +512,9 @@ func (f *fake) registry(w http.ResponseWriter, r *http.Request) {
 		i := f.blobIndex(digest)
 		if r.Method == http.MethodHead {
 			key := fmt.Sprintf("head:%d", i)
+			if f.authGate(w, r, key) {
+				return
+			}
 			sp, _ := f.next(key)
 			if i < 0 {
 				f.respond(w, r, key, sp, 404, nil, nil)
@@ -495,6 +538,9 @@ func (f *fake) registry(w http.ResponseWriter, r *http.Request) {
 			kind = "alt"
 		}
 		key := fmt.Sprintf("%s:%d", kind, i)
+		if f.authGate(w, r, key) {
+			return
+		}
 		sp, _ := f.next(key)
 		if sp == nil {
 			sp = spec{}
@@ -655,6 +701,9 @@ func child(outf string) {
 	if b, _ := c["big"].(bool); b {
 		f.big = true
 	}
+	if a, _ := c["auth"].(bool); a {
+		f.authOn = true
+	}
 	if l, ok := c["blobs"].([]any); ok {
 		for _, x := range l {
 			var b []byte
@@ -792,6 +841,9 @@ func (f *fake) buildManifest(m map[string]any) []byte {
 }
 
 func (f *fake) loadScript(st map[string]any) {
+	if r, _ := st["rotate"].(bool); r {
+		f.epoch++
+	}
 	f.script = map[string][]spec{}
 	f.count = map[string]int{}
 	f.log = nil
@@ -918,18 +970,7 @@ func (f *fake) par(apiURL, models string, st map[string]any) map[string]any {
 
 func (f *fake) pull(apiURL, models string, st map[string]any) map[string]any {
 	f.mu.Lock()
-	f.script = map[string][]spec{}
-	f.count = map[string]int{}
-	f.log = nil
-	if sc, ok := st["script"].(map[string]any); ok {
-		for k, v := range sc {
-			l, _ := v.([]any)
-			for _, x := range l {
-				m, _ := x.(map[string]any)
-				f.script[k] = append(f.script[k], spec(m))
-			}
-		}
-	}
+	f.loadScript(st)
 	// the manifest this attempt's registry publishes
 	f.manifest = nil
 	f.manifests = nil
